@@ -15,6 +15,7 @@ import IcingaModel.C20.Spec
 import IcingaModel.C20.Json
 import IcingaModel.C20.Message
 import IcingaModel.C20.Dict
+import IcingaModel.C20.Limit
 import IcingaModel.C20.Utf8
 import IcingaModel.C20.SpecText
 import Std.Data.HashSet
@@ -122,6 +123,11 @@ def jsonNumberOk (t : List UInt8) : Bool :=
       else false
   intOk && fracOk && expOk
 
+/-- The model decoder recurses once per nesting level; texts with more than 20000 opening brackets are not run
+    through it in the driver (the driver's own stack), only the specification clauses are evaluated on them.
+    (The limit of the code under test is 1000; such texts are refused by code and model alike.) -/
+def tooManyOpeners (bs : Bytes) : Bool := (bs.filter (fun b => b == 91 || b == 123)).length > 20000
+
 def tokCodec : NumCodec (List UInt8) := { fmt := id, parse := fun t => if jsonNumberOk t then some t else none }
 
 /-- The characters an Icinga string (arbitrary bytes) stands for on the wire: sanitise (ValidateUTF8), decode —
@@ -216,6 +222,31 @@ mutual
     | [] => false
     | (_, v) :: r => hasRangeNum v || hasRangeNumMembers r
 end
+
+/-- Nesting depth of the value the harness rendered (prefix tokens `a<n>` / `o<n>` open a container of n items,
+    `k…` are keys); `?` = rendering stopped below depth 3000.  The stack holds the number of items still missing in
+    every open container. -/
+def tokDepth (toks : List String) : Nat :=
+  let rec close : List Nat → List Nat
+    | [] => []
+    | 0 :: r => close r            -- unreachable: entries are > 0
+    | 1 :: r => close r
+    | (k + 1) :: r => k :: r
+  let step (st : List Nat × Nat) (t : String) : List Nat × Nat :=
+    let (stack, best) := st
+    if t.startsWith "k" then (stack, best)
+    else if t == "?" then (stack, Nat.max best 3001)
+    else if t.startsWith "a" || t.startsWith "o" then
+      match (t.drop 1).toString.toNat? with
+      | some 0 => (close stack, Nat.max best (stack.length + 1))
+      | some n => (n :: stack, Nat.max best (stack.length + 1))
+      | none => (stack, best)
+    else (close stack, best)
+  (toks.foldl step ([], 0)).2
+
+/-- The property's "within the declared limits" for decoded documents, on the implementation's own observation. -/
+def depthSpec (toks : String) : Option Clause :=
+  if tokDepth (toks.splitOn ",") > jsonMaxNestingDepth then some .depthLimit else none
 
 /-- The implementation's tokens in the same normal form (`i5` → `#35`, `d…:<hex>` → `#<hex>`, "s-"/"s" alike). -/
 def normTok (exact : Bool) (t : String) : String :=
@@ -393,7 +424,7 @@ def handleJ (d : DSt) (n : Nat) (line : String) (pre post : List String) : IO DS
         let me := jsonEncode tokCodec v
         if me != enc then
           d ← report d n "J" s!"encode impl={eh} model={hexOf me}"
-        match jsonDecode tokCodec enc with
+        match jsonDecodeL tokCodec enc with
         | some v' =>
           if renderV true v' != renderV true v then
             d ← report d n "J" "decode: model decodes the implementation's text to a different value"
@@ -413,13 +444,17 @@ def handleK (d : DSt) (n : Nat) (line : String) (pre post : List String) : IO DS
       let mut d := { d with steps := d.steps + 1, nK := d.nK + 1 }
       let implOk := post.head? == some "ok"
       if !(implOk || post == ["err"]) then return (← bad d n)
-      if implOk then d := { d with kImplOk := d.kImplOk + 1 }
+      if implOk then
+        d := { d with kImplOk := d.kImplOk + 1 }
+        match depthSpec ((post.drop 1).headD "") with
+        | some cl => d ← specfail d n cl
+        | none => pure ()
       -- JsonDecode sanitises the text first (json.cpp:211); the model decoder then speaks only about the
       -- whitespace-free ASCII language the encoder emits (raw non-ASCII inside strings: model silent)
-      match some (sanitise txt) with
+      match (if tooManyOpeners txt then none else some (sanitise txt)) with
       | none => return d
       | some txt =>
-        match jsonDecode tokCodec txt with
+        match jsonDecodeL tokCodec txt with
         | some v =>
           d := { d with kModelOk := d.kModelOk + 1 }
           d := d.mark line
@@ -441,10 +476,10 @@ def handleK (d : DSt) (n : Nat) (line : String) (pre post : List String) : IO DS
 /-- Compare what DecodeMessage returned for `payload` with the model; `none` = agreement (or the model is silent:
     text outside the whitespace-free language it decodes, or not valid UTF-8). -/
 def messageDiff (payload : Bytes) (obs : MsgObs) (toks : String) : Option String × Bool :=
-  match some (sanitise payload) with
+  match (if tooManyOpeners payload then none else some (sanitise payload)) with
   | none => (none, true)
   | some payload =>
-    match jsonDecode tokCodec payload with
+    match jsonDecodeL tokCodec payload with
     | none => (none, true)
     | some v =>
       match decodeMessage tokCodec payload with
@@ -470,6 +505,10 @@ def handleD (d : DSt) (n : Nat) (line : String) (pre post : List String) : IO DS
       match messageSpec payload obs with
       | some cl => d ← specfail d n cl
       | none => pure ()
+      if obs == .dict then
+        match depthSpec (orest.headD "") with
+        | some cl => d ← specfail d n cl
+        | none => pure ()
       let (diff, silent) := messageDiff payload obs (orest.headD "")
       match diff with
       | some w => d ← report d n "D" w
@@ -517,6 +556,10 @@ def handleM (d : DSt) (n : Nat) (line : String) (pre post : List String) : IO DS
             match messageSpec p obs with
             | some cl => d ← specfail d n cl
             | none => pure ()
+            if obs == .dict then
+              match depthSpec (orest.headD "") with
+              | some cl => d ← specfail d n cl
+              | none => pure ()
         | none => d ← specfail d n .tlsOnlyCanonical
         -- model
         match mr with
